@@ -174,6 +174,25 @@ def parse_summary(text: str) -> T.Dict[str, int]:
     return out
 
 
+COUNTER_ATTRS = [('ok', 'success_count'), ('xfail', 'expectedfail_count'), ('fail', 'fail_count'),
+                 ('upass', 'unexpectedpass_count'), ('skip', 'skip_count'), ('ignored', 'ignored_count'),
+                 ('timeout', 'timeout_count')]
+
+
+def read_counts(th) -> T.Union[T.Dict[str, int], str]:
+    """the seven counters of a TestHarness, or a string saying why they cannot be read (shape change)"""
+    out: T.Dict[str, int] = {}
+    for key, attr in COUNTER_ATTRS:
+        try:
+            v = getattr(th, attr)
+            if isinstance(v, bool) or not isinstance(v, int):
+                return f'counters: {attr} is {type(v).__name__}, not int'
+            out[key] = v
+        except Exception as e:
+            return f'counters: {attr}: {type(e).__name__}: {e}'[:200]
+    return out
+
+
 def make_tests(mtest, case: dict):
     from mesonbuild.backend.backends import TestSerialisation, TestProtocol
     from mesonbuild.mesonlib import EnvironmentVariables
@@ -203,6 +222,8 @@ def cli_args(case: dict, wd: str) -> T.List[str]:
         a += ['--no-suite', s]
     if case.get('slice'):
         a += ['--slice', '%d/%d' % tuple(case['slice'])]
+    if case.get('tmult') is not None:
+        a += ['--timeout-multiplier=' + repr(float(case['tmult']))]
     return a
 
 
@@ -266,12 +287,24 @@ def run_case(case: dict, wd: str, want_logs: bool = True) -> dict:
                 except Exception as e:
                     res['error'] = type(e).__name__ + ':' + str(e)[:200]
                 res['exit'] = th2_exit
-                res['counts'] = {'ok': th.success_count, 'xfail': th.expectedfail_count, 'fail': th.fail_count,
-                                 'upass': th.unexpectedpass_count, 'skip': th.skip_count,
-                                 'ignored': th.ignored_count, 'timeout': th.timeout_count}
-                res['eff_jobs'] = th.options.num_processes
-                res['test_count'] = th.test_count
-                res['collected_failures'] = len(th.collected_failures)
+                # adapters: a changed attribute shape is an outcome (`adapter_error`), never an exception
+                adapter_errors = []
+                counts = read_counts(th)
+                if isinstance(counts, str):
+                    adapter_errors.append(counts)
+                    counts = None
+                res['counts'] = counts
+                for key, fn in (('eff_jobs', lambda: int(th.options.num_processes)),
+                                ('test_count', lambda: int(th.test_count)),
+                                ('collected', lambda: [r.res.name for r in th.collected_failures]),
+                                ('flag', lambda: bool(th.maxfail_reached))):
+                    try:
+                        res[key] = fn()
+                    except Exception as e:
+                        res[key] = None
+                        adapter_errors.append(f'{key}: {type(e).__name__}: {e}'[:200])
+                if adapter_errors:
+                    res['adapter_error'] = adapter_errors
     finally:
         os.chdir(cwd)
         asyncio.set_event_loop_policy(old_policy)
